@@ -59,7 +59,8 @@ theorem built_goto_from_references_agrees {vfs : List (String × String)} {rootP
     (hf : findSymbolAt (run (opsOf r)) file p = some S) (x : Loc) (hx : x ∈ S.refs) (hne : x.isEmpty = false)
     (q : Nat) (hq : overlaps x x.file q = true) :
     gotoDef (run (opsOf r)) x.file q = some S.define :=
-  index_goto_from_references_agrees (C03.built_ready hb) hr (built_refStable hb hr) file p S hf x hx hne q hq
+  index_goto_from_references_agrees (C03.built_ready hb) (Index.built_idsPlain hb) hr (built_refStable hb hr) file p S hf x hx
+    hne q hq
 
 /-- clauses 1 and 2, restated for built workspaces (no hypotheses on the log either) -/
 theorem built_same_text {vfs : List (String × String)} {rootPath : String} {includeDir : Option String}
@@ -67,7 +68,7 @@ theorem built_same_text {vfs : List (String × String)} {rootPath : String} {inc
     (hr : Index.index ws = .ok r) (file p : Nat) (c : Loc) (hc : cursorLoc (run (opsOf r)) file p = some c) :
     ∃ S, findSymbolAt (run (opsOf r)) file p = some S ∧ fileText ws c = S.name ∧
       fileText ws S.define = S.name ∧ ∀ x ∈ S.refs, fileText ws x = S.name :=
-  index_same_text (C03.built_ready hb) hr file p c hc
+  index_same_text (C03.built_ready hb) (Index.built_idsPlain hb) hr file p c hc
 
 /-- the C06 theorems without any hypothesis: for every virtual file system, root path and include
 directory the workspace is built (`C03.buildWorkspace_total`), the indexer returns, its log is
@@ -83,7 +84,8 @@ theorem c06_all (vfs : List (String × String)) (rootPath : String) (includeDir 
         ∀ q, overlaps x x.file q = true → gotoDef (run (opsOf r)) x.file q = some S.define) := by
   obtain ⟨ws, r, hb, hr⟩ := C03.index_never_panics_all vfs rootPath includeDir
   have h := C03.built_ready hb
-  exact ⟨ws, r, hb, hr, index_refsValid h hr, index_namedRefs h hr, index_textOk h hr, index_disjointLocs h hr,
+  exact ⟨ws, r, hb, hr, index_refsValid h hr, index_namedRefs h hr, index_textOk h hr,
+    index_disjointLocs h (Index.built_idsPlain hb) hr,
     built_refStable hb hr, fun file p c hc => built_same_text hb hr file p c hc,
     fun file p S hf x hx hne q hq => built_goto_from_references_agrees hb hr file p S hf x hx hne q hq⟩
 
